@@ -1,49 +1,98 @@
-"""development tool:  /venv/bin/python harness/k2hist.py <enc module> [n] [seed ...]
-runs the K2 loop of k2test.py for several seeds and prints, next to the outcome counts, a histogram of the
-encoder branches (the adapter's `features(cfg)`) over the configurations whose LPs compared equal"""
-import sys, random, importlib
+"""development tool:  /venv/bin/python harness/k2hist.py <enc module> [n] [seed] [--mutate]
+K2 loop as k2test.py, plus (a) a histogram of the encoder branches exercised (`mod.branches(cfg, model)`) and
+(b) with --mutate a sensitivity check: the *request* sent to the Lean driver is perturbed in one parameter
+(the real model is left alone) and the tool counts how often the comparison notices."""
+import sys, json, random, copy
 sys.path.insert(0, __file__.rsplit("/", 1)[0])
-from fpv import common
-from k2test import k2_once
+from fpv import common, lpdump
+import importlib
+
+
+def mutations(req, rng):
+    """yield (name, mutated request) pairs that should change the LP"""
+    out = []
+    r = copy.deepcopy(req); r["allow_empty"] = not r["allow_empty"]; out.append(("allow_empty", r))
+    r = copy.deepcopy(req); r["k"] = r["k"] + 1; out.append(("k", r))
+    if req["constraints"]:
+        r = copy.deepcopy(req); r["coverage"] = {"1": "1/2"}.get(r["coverage"], "1"); out.append(("coverage", r))
+        r = copy.deepcopy(req); r["constraints"] = r["constraints"][:-1]; out.append(("drop_constraint", r))
+    if req["flow"] and req["op"] != "lp.kcoverc":
+        r = copy.deepcopy(req); i = rng.randrange(len(r["flow"]))
+        r["flow"][i][2] = str(common.frac(r["flow"][i][2]) + 1); out.append(("flow+1", r))
+        r = copy.deepcopy(req); r["weight_type"] = "float" if r["weight_type"] == "int" else "int"; out.append(("weight_type", r))
+    if req["starts"]:
+        r = copy.deepcopy(req); r["starts"] = r["starts"][1:]; out.append(("drop_start", r))
+    if req["ends"]:
+        r = copy.deepcopy(req); r["ends"] = r["ends"][1:]; out.append(("drop_end", r))
+    if req["ignore"]:
+        r = copy.deepcopy(req); r["ignore"] = r["ignore"][1:]; out.append(("drop_ignore", r))
+    if req["scaling"]:
+        r = copy.deepcopy(req); r["scaling"] = r["scaling"][1:]; out.append(("drop_scaling", r))
+    if req.get("given_weights"):
+        r = copy.deepcopy(req); r["given_weights"] = None; out.append(("drop_given_weights", r))
+    # a back edge turns non-SCC edges into SCC edges (caps); reversing an edge changes the graph
+    r = copy.deepcopy(req); e = r["edges"][rng.randrange(len(r["edges"]))]
+    if e[0] != e[1] and [e[1], e[0]] not in r["edges"]:
+        r["edges"].append([e[1], e[0]]); out.append(("add_back_edge", r))
+    return out
+
 
 if __name__ == "__main__":
-    name = sys.argv[1]
-    n = int(sys.argv[2]) if len(sys.argv) > 2 else 300
-    seeds = [int(s) for s in sys.argv[3:]] or [0]
+    args = [a for a in sys.argv[1:] if not a.startswith("--")]
+    mutate = "--mutate" in sys.argv
+    name = args[0]
+    n = int(args[1]) if len(args) > 1 else 200
+    seed = int(args[2]) if len(args) > 2 else 0
     mod = importlib.import_module("enc." + name)
     ok, log = common.lean_build(("fpdriver",))
     if not ok:
         print(log[-3000:]); sys.exit(2)
     fp = common.import_flowpaths()
     d = common.Driver()
-    hist, errs_by_kind = {}, {}
-    tot = {"equal": 0, "different": 0, "constructor_errors": 0}
-    for seed in seeds:
-        rng = random.Random(seed)
-        c = {"equal": 0, "different": 0, "constructor_errors": 0}
-        for _ in range(n):
-            cfg = mod.gen_cfg(rng)
-            try:
-                df = k2_once(fp, d, mod, cfg)
-            except common.Infra:
-                raise
-            except Exception as e:
-                c["constructor_errors"] += 1
-                key = type(e).__name__ + ": " + str(e)[:70]
-                errs_by_kind[key] = errs_by_kind.get(key, 0) + 1
-                continue
-            if df is None:
-                c["equal"] += 1
-                for f in mod.features(cfg):
-                    hist[f] = hist.get(f, 0) + 1
-            else:
-                c["different"] += 1
-        print(f"seed={seed}: " + " ".join(f"{k}={v}" for k, v in c.items()))
-        for k in tot:
-            tot[k] += c[k]
-    print("total: " + " ".join(f"{k}={v}" for k, v in tot.items()))
-    for k, v in sorted(errs_by_kind.items(), key=lambda x: -x[1]):
-        print("   ", v, k)
-    print("branch histogram over equal cases:")
+    rng = random.Random(seed)
+    mrng = random.Random(seed + 7)
+    good = bad = errs = 0
+    hist, kinds, sizes = {}, {}, []
+    mut = {}
+    for it in range(n):
+        cfg = mod.gen_cfg(rng)
+        try:
+            m = mod.build_real(fp, cfg)
+        except Exception as e:
+            errs += 1
+            k = type(e).__name__ + ": " + str(e)[:80]
+            kinds[k] = kinds.get(k, 0) + 1
+            continue
+        m.solver._apply_pending_bound_updates()
+        a = lpdump.from_highs(m.solver.solver)
+        req = mod.to_request(cfg)
+        b = lpdump.from_driver(d.call(req))
+        sizes.append(len(a))
+        if a == b:
+            good += 1
+            for t in mod.branches(cfg, m):
+                hist[t] = hist.get(t, 0) + 1
+        else:
+            bad += 1
+            if bad <= 3:
+                print("CFG", json.dumps(cfg)); print(json.dumps(lpdump.diff(a, b), indent=1))
+        if mutate:
+            for mn, r in mutations(req, mrng):
+                try:
+                    b2 = lpdump.from_driver(d.call(r))
+                except common.Infra as e:
+                    b2 = ["<driver error>"]
+                s = mut.setdefault(mn, [0, 0])
+                s[0] += 1
+                s[1] += (a != b2)
+    print(f"equal={good} different={bad} constructor_errors={errs}  lp_items(min/median/max)="
+          f"{min(sizes)}/{sorted(sizes)[len(sizes)//2]}/{max(sizes)}")
+    for k, v in sorted(kinds.items(), key=lambda x: -x[1])[:8]:
+        print("  ", v, k)
+    print("branch histogram (equal cases):")
     for k, v in sorted(hist.items()):
-        print(f"    {k:32s} {v}")
+        print(f"  {v:5d}  {k}")
+    if mutate:
+        print("request mutations noticed / tried:")
+        for k, (t, c) in sorted(mut.items()):
+            print(f"  {k:22s} {c}/{t}")
